@@ -343,4 +343,24 @@ example :
       { interims := [], head := some (200, false, []), body := str "abcde", firstEof := some 5, bad := false } := by
   decide
 
+/-! ## Flow-control credit of the request body -/
+
+/-- **the client is credited exactly the body bytes the origin accepted, under every acceptance
+schedule**: after any sequence of acknowledgements the credit handed to the request-body source is
+what was acknowledged beyond the `head` bytes of the serialised request head - never more (no credit
+for bytes the endpoint made up, none ahead of the body), never less (the client's window is not
+starved). Every prefix of a schedule is a schedule, so this holds at every moment of the exchange. -/
+theorem request_credit_exact (head : Nat) (acks : List Nat) :
+    (creditAfter head acks).released = acks.sum - head
+    ∧ (creditAfter head acks).skip = head - acks.sum := by
+  have := credit_fold ⟨head, 0⟩ acks
+  simpa [creditAfter] using this
+
+/-- in particular the head taken in pieces is not charged: as long as no more than the head was
+acknowledged, nothing was credited -/
+theorem head_in_pieces_not_credited (head : Nat) (acks : List Nat) (h : acks.sum ≤ head) :
+    (creditAfter head acks).released = 0 := by
+  rw [(request_credit_exact head acks).1]; omega
+
+example : (creditAfter 116 [10, 106, 32]).released = 32 ∧ (creditAfter 116 [0, 200]).released = 84 := by decide
 end TT.Fwd
